@@ -9,7 +9,7 @@
      ECancel rid         the requester cancels Request.response,
      EResponse r ty mid rid   a 2.05 response from r (piggy-backed ACK / separate CON / NON) carrying the token of request rid,
      ERefuse r false     (a transport that does NOT refuse datagrams synchronously: [wf_run] admits ERefuse only with `false`;
-                          with a refusing transport theorems 3, 7 are false of the code -- see C03_refused_retransmission_refuted),
+                          for refusing transports see the step-level theorems C03_refused_*_partial and the Examples at the end),
    and every scripted random stream in [0,1].  [trace_of] is the list of outputs (datagrams sent with their time, request
    failures with their time); times are integer microseconds.  tn = (ACK_TIMEOUT us, ACK_RANDOM_FACTOR = num/den, MAX_RETRANSMIT). *)
 From Coq Require Import QArith String.
@@ -174,36 +174,48 @@ Example C03_piggybacked_response_stops :
   [ODraw 0 2000000 3000000 2000000; OSend 0 m; OSend 2000000 m; OResult 2000000 1].
 Proof. vm_compute. reflexivity. Qed.
 
-(* OPEN FINDING (known_findings.d/C03.json): with a transport that refuses a datagram synchronously (udp6 sendmsg failing:
-   dispatch_error runs inside message_interface.send), a refused RETRANSMISSION leaves the exchange re-inserted by _retransmit after
-   dispatch_error removed it.  Witness: requests 0, 1 to remote 0; the first retransmission (t = 2 s) is refused -> both requests
-   fail with NetworkError; the transport recovers; request 0, already failed, is retransmitted at 6, 14, 30 s; request 2 (sent at 6 s,
-   own deadline 6+62 = 68 s) shares the remote with the zombie, which violates NSTART, and is failed by the zombie's give-up at
-   62 s; at 68 s its own give-up raises KeyError inside the timer callback.  So without the hypothesis "transport does not refuse"
-   C03_gives_up (failure exactly one doubled interval after the last copy), C03_no_internal_error and C03_nstart_invariant are false. *)
+(* ---- transports that refuse a datagram synchronously (udp6 sendmsg failing: dispatch_error runs inside message_interface.send).
+   Code as of fix commits 11456f9 / 8d04b7c.  Step-level statements, proved for ANY state; what is NOT proved here is the run-level
+   "no further copy in any continuation" for runs that contain refusals (the run-level theorems above assume a transport that never
+   refuses; for refusing transports that continuation is covered by the correspondence run and the oracle only) -- hence _partial. *)
+Theorem C03_refused_first_transmission_partial : forall st m mon st' o, is_refusing st (m_remote m) = true ->
+  _send_initially st m mon = (st', o) ->
+  (forall t m', ~ In (OSend t m') o) /\ has_exchange_with st' (m_remote m) = false /\ in_backlogs st' (m_remote m) = false /\
+  (forall rid, In (rid, m_remote m) (outgoing_requests st) -> In (OFail (now st) rid NetworkError) o) /\
+  (forall q, In q (outgoing_requests st') -> snd q <> m_remote m).
+Proof. exact refused_send_initially. Qed.
+Print Assumptions C03_refused_first_transmission_partial.
+Theorem C03_refused_retransmission_partial : forall st h mon h0 st' o,
+  let m := h_message h in
+  xget (m_remote m, m_mid m) (active_exchanges st) = Some (mon, h0) -> h_counter h < MAX_RETRANSMIT (m_tuning m) ->
+  is_refusing st (m_remote m) = true -> _retransmit st h = (st', o) ->
+  (forall t m', ~ In (OSend t m') o) /\ has_exchange_with st' (m_remote m) = false /\ in_backlogs st' (m_remote m) = false /\
+  (forall rid, In (rid, m_remote m) (outgoing_requests st) -> In (OFail (now st) rid NetworkError) o) /\
+  (forall q, In q (outgoing_requests st') -> snd q <> m_remote m).
+Proof. exact refused_retransmit. Qed.
+Print Assumptions C03_refused_retransmission_partial.
+
+(* the scenarios that were defects before 11456f9 / 8d04b7c (exchange resurrected by _retransmit after a refused retransmission: copies
+   of the failed request at 6/14/30 s, request 2 failed at 62 s instead of 68 s, KeyError at 68 s; KeyError out of _continue_backlog on
+   a refused backlog release) now run cleanly: *)
 Definition tn1 : tuning := {| ACK_TIMEOUT := 2000000; ARF_num := 1; ARF_den := 1; MAX_RETRANSMIT := 4 |}.
 Definition refused_witness : list event :=
   [ERequest 0 0 tn1; ERequest 1 0 tn1; ERefuse 0 true; EFire; ERefuse 0 false; EFire; ERequest 2 0 tn1;
    EFire; EFire; EFire; EFire; EFire; EFire; EFire; EFire].
-Example C03_refused_retransmission_refuted :
+Example C03_refused_retransmission_clean :
   let m0 := {| m_remote := 0; m_mid := 10; m_rid := 0; m_tuning := tn1 |} in
   let m2 := {| m_remote := 0; m_mid := 12; m_rid := 2; m_tuning := tn1 |} in
   trace_of 10 [0; 0; 0] refused_witness =
   [ODraw 0 2000000 2000000 2000000; OSend 0 m0;
    OFail 2000000 0 NetworkError; OFail 2000000 1 NetworkError;
-   OSend 6000000 m0;
-   ODraw 6000000 2000000 2000000 2000000; OSend 6000000 m2; OSend 8000000 m2; OSend 12000000 m2; OSend 14000000 m0; OSend 20000000 m2;
-   OSend 30000000 m0; OSend 36000000 m2;
-   OFail 62000000 2 ConRetransmitsExceeded;
-   OError 68000000 KeyError].
+   ODraw 2000000 2000000 2000000 2000000; OSend 2000000 m2; OSend 4000000 m2; OSend 8000000 m2; OSend 16000000 m2; OSend 32000000 m2;
+   OFail 64000000 2 ConRetransmitsExceeded].
 Proof. vm_compute. reflexivity. Qed.
-(* a refused release of a backlogged message: KeyError out of _continue_backlog (second open finding) *)
-Example C03_refused_backlog_release_refuted :
-  trace_of 10 [0; 0] [ERequest 0 0 tn1; ERequest 1 0 tn1; ERefuse 0 true; ERecv 0 false 10] =
-  [ODraw 0 2000000 2000000 2000000; OSend 0 {| m_remote := 0; m_mid := 10; m_rid := 0; m_tuning := tn1 |};
-   ODraw 0 2000000 2000000 2000000; OFail 0 0 NetworkError; OFail 0 1 NetworkError; OError 0 KeyError].
+Example C03_refused_backlog_release_clean :
+  run_trace 10 [0; 0] [ERequest 0 0 tn1; ERequest 1 0 tn1; ERefuse 0 true; ERecv 0 false 10] =
+  ([[ODraw 0 2000000 2000000 2000000; OSend 0 {| m_remote := 0; m_mid := 10; m_rid := 0; m_tuning := tn1 |}]; []; [];
+    [ODraw 0 2000000 2000000 2000000; OFail 0 0 NetworkError; OFail 0 1 NetworkError]], ([], [], []), 0).
 Proof. vm_compute. reflexivity. Qed.
-(* a refused FIRST transmission is handled cleanly: the request fails at once, nothing is left behind *)
 Example C03_refused_first_transmission_clean :
   run_trace 10 [0] [ERefuse 0 true; ERequest 0 0 tn1; EFire] =
   ([[]; [ODraw 0 2000000 2000000 2000000; OFail 0 0 NetworkError]; []], ([], [], []), 0).
